@@ -38,15 +38,19 @@ def dsum(a, b):
     return float(Decimal(str(a)) + Decimal(str(b)))
 
 
-def gen_fills(rng, irregular):
+def gen_fills(rng, irregular, long_cycle=False):
     """signed qty on a 0.25 lattice or on a lattice of tenths (decimal quantities whose binary sums are inexact: 0.8 - 0.1 - 0.7), prices on a 0.5 lattice"""
     fs, q = [], 0.0
     dec = rng.random() < 0.5
     OPEN, INC, RED, OVER = ([0.8, 0.3, 1.1, 0.7, 2.3], [0.1, 0.2, 0.7], (0.1, 0.2, 0.3, 0.7, 1.1), [0.1, 0.3, 1]) if dec else \
                            ([1, 2, 0.5, 4, 1.5], [0.5, 1, 2], (0.25, 0.5, 1, 1.5), [0.5, 1, 2])
-    for _ in range(rng.choice([2, 3, 4, 6, 8, 12])):
+    n_fills = rng.choice([24, 30, 45]) if long_cycle else rng.choice([2, 3, 4, 6, 8, 12])
+    for k_ in range(n_fills):
         price = 100.0 + rng.randrange(-20, 21) * 0.5
         r = rng.random()
+        if long_cycle and q != 0:
+            # one position cycle with dozens of fills on each side (scaling in and out, as a grid strategy does), closed by the last fill
+            r = 0.4 if k_ == n_fills - 1 else (0.1 if r < 0.6 else 0.7)
         if q == 0:
             sq = rng.choice(OPEN) * rng.choice([1, -1])
             ro = irregular and r < 0.05
@@ -125,7 +129,7 @@ def run(tier, seed, replay=None):
     cases, errs_real = [], []
     for k in range(200 if tier == 'quick' else 3000):
         fee = rng.choice([0.0, 0.001, 0.0005])
-        fs = gen_fills(rng, irregular=(k % 3 == 0))
+        fs = gen_fills(rng, irregular=(k % 3 == 0), long_cycle=(k % 10 == 5))
         try:
             impl = real_fills(fee, 1e7, fs)
             cases.append((fee, 1e7, fs, impl))
